@@ -310,6 +310,11 @@ class Program:
             from .normalize import coalesce_copies, propagate_param_copies
 
             tot = {"sc": 0, "pc": 0, "cc": 0, "fs": 0}
+            from .normalize import propagate_attr_copies
+
+            n_ac = 0 if os.environ.get("SV_NO_ATTRCOPY") else propagate_attr_copies(tree)
+            if n_ac:
+                inlined = inlined + [f"put back {n_ac} attribute chain(s) that had been copied into locals"]
             for _round in range(3):
                 n_pc = propagate_param_copies(tree)
                 n_cc = coalesce_copies(tree)
